@@ -324,13 +324,13 @@ func lastLines(s string, n int) string {
 	return strings.Join(ls, "\n")
 }
 
-var reUnusedImport = regexp.MustCompile(`(?m)^(\S+\.go):(\d+):\d+: "([^"]+)" imported (as \S+ )?and not used`)
+var reUnusedImport = regexp.MustCompile(`(?m)^(?:vet: )?(\S+\.go):(\d+):\d+: "([^"]+)" imported (as \S+ )?and not used`)
 
 // fixUnusedImports removes exactly the import specs the Go type checker reports as unused in the
 // unoptimised stage (it still carries the co import that only optimizeImports drops).
 func fixUnusedImports(dir, pkg string) *stageFailure {
 	for iter := 0; iter < 3; iter++ {
-		r := runCmd(dir, 5*time.Minute, nil, "go", "vet", "./"+pkg)
+		r := runCmd(dir, 5*time.Minute, nil, "go", "build", "-gcflags=-e", "./"+pkg)
 		ms := reUnusedImport.FindAllStringSubmatch(r.out, -1)
 		if len(ms) == 0 {
 			return nil
